@@ -22,6 +22,7 @@ import (
 
 	"goa.design/goa/v3/expr"
 
+	dg "verifharness/designgen"
 	"verifharness/vh"
 )
 
@@ -142,8 +143,8 @@ func dumpType(dt expr.DataType, k int, byID map[string]string) string {
 }
 
 // childTierA is the body of the child process.
-func childTierA(poolsFile, outFile string, from int) {
-	debug.SetMaxStack(48 << 20) // a runaway recursion dies quickly
+func childTierA(poolsFile, outFile string, from int, genDir, repo string) {
+	debug.SetMaxStack(8 << 20) // a runaway recursion dies quickly
 	var pools []*Pool
 	b, err := os.ReadFile(poolsFile)
 	if err != nil {
@@ -243,6 +244,16 @@ func childTierA(poolsFile, outFile string, from int) {
 				ob.Tree = dumpProjected(proj, projDepth, byID)
 			}()
 			emit(childLine{Kind: "proj", Pool: pi, Proj: &ob})
+		}
+		if genDir != "" {
+			// tier-B screening: the code generators must survive the design too (they walk the
+			// same recursive types; a fatal error there would kill the parent)
+			emit(childLine{Kind: "begin", Pool: pi, Type: "<generate>"})
+			gd := filepath.Join(genDir, fmt.Sprintf("g%d", pi))
+			if err := os.MkdirAll(gd, 0o755); err == nil {
+				dg.Generate(gd, "gen") // errors and recovered panics are reported by the parent's own run
+			}
+			os.RemoveAll(gd)
 		}
 		emit(childLine{Kind: "pool", Pool: pi})
 	}
